@@ -1040,41 +1040,11 @@ Proof.
   cbn [run_op bind]. apply IH.
 Qed.
 
-(* ---------- the assembler copy: with the repair switched off it is Ffs.asm ---------- *)
+(* ---------- unfolding equations of the shared assembler ---------- *)
 
 Section AsmTie.
 Variable enc : Z -> bytes -> option bytes.
 Variable s2u : bytes -> bytes.
-
-Lemma asm_vol_v_false pol ffs3 h buf files :
-  asm_vol_v false pol ffs3 h buf files = asm_vol pol ffs3 h buf files.
-Proof. destruct files; reflexivity. Qed.
-
-Lemma vol_asm_v_false h buf kids st :
-  vol_asm_v false h buf kids st = vol_asm h buf kids st.
-Proof.
-  unfold vol_asm_v, vol_asm. destruct st as [pol ffs3]. rewrite asm_vol_v_false.
-  destruct (asm_vol pol ffs3 h buf kids) as [[h' nb]| | |]; cbn [bind]; try reflexivity.
-  destruct kids; reflexivity.
-Qed.
-
-Lemma asm_v_sec fx h buf kids st :
-  asm_v enc s2u fx (NSec h buf kids) st =
-  (do ks <- asm_elems_v enc s2u fx kids st; let '(kids', st1) := ks in sec_asm enc s2u h buf kids' st1).
-Proof. reflexivity. Qed.
-Lemma asm_v_file fx h buf kids st :
-  asm_v enc s2u fx (NFile h buf kids) st =
-  (do ks <- asm_elems_v enc s2u fx kids st; let '(kids', st1) := ks in file_asm h buf kids' st1).
-Proof. reflexivity. Qed.
-Lemma asm_v_vol fx h buf kids st :
-  asm_v enc s2u fx (NVol h buf kids) st =
-  match set_polarity (fst st) (fv_polarity (v_attrs h)) with
-  | None => Err E_POLARITY
-  | Some pol0 =>
-    do ks <- asm_elems_v enc s2u fx kids (pol0, false); let '(kids', st1) := ks in
-    do r <- vol_asm_v fx h buf kids' st1; let '(n', st2) := r in Ok (n', (fst st2, snd st))
-  end.
-Proof. reflexivity. Qed.
 
 Lemma asm_sec h buf kids st :
   asm enc s2u (NSec h buf kids) st =
@@ -1094,41 +1064,16 @@ Lemma asm_vol_eq h buf kids st :
   end.
 Proof. reflexivity. Qed.
 
-Lemma asm_elems_v_false_of l :
-  Forall (fun x => forall st, asm_v enc s2u false x st = asm enc s2u x st) l ->
-  forall st, asm_elems_v enc s2u false l st = asm_elems enc s2u l st.
-Proof.
-  induction 1 as [|x r Hx Hr IH]; intros st; [reflexivity|].
-  cbn [asm_elems_v asm_elems]. rewrite Hx.
-  destruct (asm enc s2u x st) as [[x' st1]| | |]; cbn [bind]; try reflexivity.
-  rewrite IH. reflexivity.
-Qed.
-
-Lemma asm_v_false_lemma : forall n st, asm_v enc s2u false n st = asm enc s2u n st.
-Proof.
-  induction n as [h buf kids IH | h buf kids IH | h buf kids IH | off buf] using node_ind'; intros st.
-  - rewrite asm_v_sec, asm_sec, (asm_elems_v_false_of kids IH). reflexivity.
-  - rewrite asm_v_file, asm_file, (asm_elems_v_false_of kids IH). reflexivity.
-  - rewrite asm_v_vol, asm_vol_eq. destruct (set_polarity (fst st) (fv_polarity (v_attrs h))); [|reflexivity].
-    rewrite (asm_elems_v_false_of kids IH).
-    destruct (asm_elems enc s2u kids (z, false)) as [[kids' st1]| | |]; cbn [bind]; try reflexivity.
-    rewrite vol_asm_v_false. reflexivity.
-  - reflexivity.
-Qed.
-
-Lemma asm_bios_v_false_lemma elems len st :
-  asm_bios_v enc s2u false elems len st = asm_bios enc s2u elems len st.
-Proof.
-  unfold asm_bios_v, asm_bios.
-  rewrite (asm_elems_v_false_of elems) by (apply Forall_forall; intros; apply asm_v_false_lemma).
-  reflexivity.
-Qed.
-
 End AsmTie.
 
-(* DESIGN section 6 #20.  The pinned Assemble hands back the old buffer of a volume whose file list
-   has become empty; the repaired one rebuilds it: header, then erased space up to Length. *)
-Lemma asm_vol_empty_asis pol ffs3 h buf : asm_vol_v false pol ffs3 h buf [] = Ok (h, buf).
+(* DESIGN section 6 #20.  The code before the repair handed back the old buffer of a volume whose
+   file list had become empty; the repaired one (Ffs.asm_vol) rebuilds it, see AsmProofs. *)
+Lemma asm_vol_empty_asis pol ffs3 h buf : asm_vol_pinned pol ffs3 h buf [] = Ok (h, buf).
+Proof. reflexivity. Qed.
+
+(* on every non-empty file list the two agree *)
+Lemma asm_vol_pinned_nonempty pol ffs3 h buf f r :
+  asm_vol_pinned pol ffs3 h buf (f :: r) = asm_vol pol ffs3 h buf (f :: r).
 Proof. reflexivity. Qed.
 
 (* ---------- the shape of parsed trees, and its preservation by the operations ---------- *)
